@@ -55,10 +55,10 @@ partial def tyOf : Sexp → Option Ty
       let k ← tyOf k; let v ← tyOf v; let l ← lo.int?; let h ← hi.int?
       if intOk l && intOk h && l ≤ h then some (.hash k v l h) else none
   | .list [.atom "like", t, n] => do let t ← tyOf t; let n ← n.bytes?; pure (.like t n)
-  | .atom "callable" => some (.callable none)
+  | .atom "callable" => some (.callable false [])
   | .list [.atom "runtime", rt, n, .atom "n"] => do let rt ← rt.bytes?; let n ← n.bytes?; pure (.runtime rt n none)
   | .list [.atom "runtime", rt, n, p] => do let rt ← rt.bytes?; let n ← n.bytes?; let p ← p.bytes?; pure (.runtime rt n (some p))
-  | .list (.atom "callable" :: t :: ts) => ((t :: ts).mapM tyOf).map fun ts => .callable (some ts)
+  | .list (.atom "callable" :: ts) => (ts.mapM tyOf).map fun ts => .callable true ts
   | .list (.atom "semver" :: orig :: rs) => do
       let o ← orig.bytes?; let rs ← rs.mapM arangeOf
       if rs.isEmpty then none else some (.semverT o rs)
@@ -154,8 +154,8 @@ partial def tyStr : Ty → String
   | .like t n => "(like " ++ tyStr t ++ " " ++ hexB n ++ ")"
   | .runtime rt n none => "(runtime " ++ hexB rt ++ " " ++ hexB n ++ " n)"
   | .runtime rt n (some p) => "(runtime " ++ hexB rt ++ " " ++ hexB n ++ " " ++ hexB p ++ ")"
-  | .callable none => "callable"
-  | .callable (some ts) => "(callable" ++ String.join (ts.map fun t => " " ++ tyStr t) ++ ")"
+  | .callable false _ => "callable"
+  | .callable true ts => "(callable" ++ String.join (ts.map fun t => " " ++ tyStr t) ++ ")"
   | .semverT o rs => if rangesEq rs matchAllR then "semver" else "(semver " ++ hexB (rangeStr o rs) ++ " " ++ hexB (normStr rs) ++ ")"
 
 partial def valStr : Val → String
